@@ -39,13 +39,57 @@ func nonNilSuccOfCond(b *ssa.BasicBlock, cond ssa.Value, v ssa.Value) *ssa.Basic
 	if !ok || (bo.Op != token.EQL && bo.Op != token.NEQ) {
 		return nil
 	}
-	if !((bo.X == v && isNilConst(bo.Y)) || (bo.Y == v && isNilConst(bo.X))) {
+	if !((sameNilSubject(bo.X, v) && isNilConst(bo.Y)) || (sameNilSubject(bo.Y, v) && isNilConst(bo.X))) {
 		return nil
 	}
 	if bo.Op == token.EQL {
 		return b.Succs[1]
 	}
 	return b.Succs[0]
+}
+
+// singleStoreCell: the local variable cell a load reads from, when that variable is assigned exactly once (a variable
+// captured by a closure lives in a cell and is re-loaded at every use); with the value stored.
+func singleStoreCell(v ssa.Value) (*ssa.Alloc, ssa.Value) {
+	u, ok := v.(*ssa.UnOp)
+	if !ok || u.Op != token.MUL {
+		return nil, nil
+	}
+	al, ok := u.X.(*ssa.Alloc)
+	if !ok {
+		return nil, nil
+	}
+	var val ssa.Value
+	n := 0
+	for _, r := range referrers(al) {
+		if st, ok := r.(*ssa.Store); ok && st.Addr == ssa.Value(al) {
+			n++
+			val = st.Val
+		}
+	}
+	if n != 1 {
+		return nil, nil
+	}
+	return al, val
+}
+
+// sameNilSubject: the two values are the same pointer for the purpose of a nil test — identical, or two loads of one
+// local variable that is assigned once, or such a load and the value that was assigned.
+func sameNilSubject(a, b ssa.Value) bool {
+	if a == b {
+		return true
+	}
+	ca, va := singleStoreCell(a)
+	cb, vb := singleStoreCell(b)
+	switch {
+	case ca != nil && cb != nil:
+		return ca == cb
+	case ca != nil:
+		return va == b
+	case cb != nil:
+		return vb == a
+	}
+	return false
 }
 
 // knownNonNilIn: v is guaranteed non-nil in block blk by a dominating nil test (also through the
@@ -80,7 +124,7 @@ func (nm *nilModel) nilableSource(v ssa.Value, seen map[ssa.Value]bool) bool {
 	case *ssa.Const:
 		return x.Value == nil
 	case *ssa.Call:
-		for _, g := range nm.c.Callees(x) {
+		for _, g := range nm.c.CalleesData(x) {
 			if nm.accessor[g] || nm.nilRet[g][0] {
 				return true
 			}
@@ -88,7 +132,7 @@ func (nm *nilModel) nilableSource(v ssa.Value, seen map[ssa.Value]bool) bool {
 		return false
 	case *ssa.Extract:
 		if call, ok := x.Tuple.(*ssa.Call); ok {
-			for _, g := range nm.c.Callees(call) {
+			for _, g := range nm.c.CalleesData(call) {
 				if nm.nilRet[g][x.Index] {
 					return true
 				}
